@@ -532,8 +532,33 @@ def r3_closed_forms(program, folder, rep):
         unparse(mods["y"].value.value) in ("h", hv)
     rep.check(okm, "C11-R3", qual(fn), "offsets are reduced modulo width "
               "(x) and height (y)", construct="torus reduction", node=fn)
-    pre = [d for d in fl.defs if d.mode in ("assign", "unpack") and
-           d.var in ("x", "y") and d.node.id < start]
+    # what is reduced: the signed offset of the destination from the source
+    # along each axis with the z offset folded in (x - z, y - z).  On the
+    # hexagonal torus the sign of an offset matters: (+a, -b) costs a + b
+    # hops, (+a, +b) max(a, b).
+    sp_, dp_ = ps[0], ps[1]
+    for var, k in (("x", 0), ("y", 1)):
+        got = fl.sym(parse_expr(var), mods[var].node)
+        want = fl.sym(parse_expr(
+            "({d}[{k}] - {s}[{k}]) - ({d}[2] - {s}[2])".format(
+                d=dp_, s=sp_, k=k)), mods[var].node)
+        atoms = set(a for mono, _ in got.key() for a in mono)
+        plain_atoms = all(a.startswith("sub(%s, " % sp_) or
+                          a.startswith("sub(%s, " % dp_) for a in atoms)
+        folded = any(a.startswith("abs(") for a in atoms)
+        if got != want and not plain_atoms and not folded:
+            raise AnalysisError("shortest_torus_path_length: the offset "
+                                "reduced modulo the size (%s) is outside the "
+                                "linear fragment" % got)
+        rep.check(got == want, "C11-R3", qual(fn), "the %s offset reduced "
+                  "modulo the size is the signed difference (d[%d] - s[%d]) "
+                  "- (d[2] - s[2])" % (var, k, k),
+                  construct="torus offset %s" % var, node=mods[var].node.ast,
+                  fail="the %s offset reduced modulo the size is %s, not the "
+                       "signed difference %s: on the hexagonal torus offsets "
+                       "of opposite sign cost more hops than offsets of the "
+                       "same sign, the length reported is not the graph "
+                       "distance" % (var, got, want))
     # x, y = x - z, y - z over destination - source
     X = fl.sym_after(parse_expr("x"), last_mod)
     Y = fl.sym_after(parse_expr("y"), last_mod)
